@@ -25,7 +25,7 @@ def main():
     demo = os.path.join(d, "demo_test.go")
     res = {"dir": d, "property": prop, "summary": meta.get("summary", "")}
     if "--skip-verify" not in a:
-        wt = "/tmp/seedeval_wt"
+        wt = "/tmp/seedeval_wt%d" % os.getpid()
         sh(["git", "-C", "/repo", "worktree", "remove", "--force", wt])
         shutil.rmtree(wt, ignore_errors=True)
         rc, out = sh(["git", "-C", "/repo", "worktree", "add", "-q", "--detach", wt, "HEAD"])
